@@ -1,5 +1,5 @@
 #!/bin/bash
-# usage: mutcheck.sh <patch.diff> <ID>...   — developer tool (not a registered check).
+# usage: mutcheck.sh <patch.diff> <ID>...|all   — developer tool (not a registered check).
 # Applies a patch to a scratch copy of /repo (outside /repo and /verif), runs the named checks on it
 # and prints their verdict lines; the scratch copy is removed afterwards.
 P=$(realpath "$1"); shift
@@ -9,7 +9,9 @@ cp /verif/known_findings.json "$O/"
 ( cd "$S" && patch -p1 -s < "$P" ) || { echo "PATCH FAILED"; rm -rf "$S" "$O"; exit 2; }
 export PATH=/opt/veriftools/go1.26.8/bin:$PATH GOTOOLCHAIN=local GOFLAGS=-mod=mod GOPROXY=off GOWORK=off
 rc=0
-for id in "$@"; do
+ids=$(IFS=,; echo "$*")
+[ $# -eq 1 ] && [ "$1" != all ] && ids="$1,$1"
+for id in "$ids"; do
   /verif/bin/helmverif -prop "$id" -tier quick -repo "$S" -verif "$O" | grep -E "^(property=|VIOLATION|KNOWN|  (violated|undecided))" | sed "s#$S/##g" | cut -c1-400
 done
 rm -rf "$S" "$O"
